@@ -72,10 +72,6 @@ Qed.
 (* ------------------------------------------------------------------------------------------ *)
 (* crps_cdf_exact on a finite case = the specification sum                                      *)
 (* ------------------------------------------------------------------------------------------ *)
-Definition pt := (Q * Q * Q)%type.          (* (threshold, ordinate, weight) *)
-Definition tq (p : pt) : Q := fst (fst p).
-Definition fq (p : pt) : Q := snd (fst p).
-Definition wq (p : pt) : Q := snd p.
 
 (* sum over the pieces selected by `sel` (a test on the left end point) of w * int (linear g)^2 *)
 Fixpoint gsum (sel : Q -> bool) (g : pt -> Q) (pts : list pt) : Q :=
@@ -336,12 +332,6 @@ Qed.
 (* ------------------------------------------------------------------------------------------ *)
 (* trapz                                                                                        *)
 (* ------------------------------------------------------------------------------------------ *)
-(* trapezoid rule for a function g of the points *)
-Fixpoint tsum {A} (t : A -> Q) (g : A -> Q) (pts : list A) : Q :=
-  match pts with
-  | p0 :: ((p1 :: _) as tl) => (t p1 - t p0) * ((1 # 2) * (g p1 + g p0)) + tsum t g tl
-  | _ => 0
-  end.
 Lemma tsum_step {A} (t g : A -> Q) p0 p1 tl :
   tsum t g (p0 :: p1 :: tl) = (t p1 - t p0) * ((1 # 2) * (g p1 + g p0)) + tsum t g (p1 :: tl).
 Proof. reflexivity. Qed.
@@ -380,14 +370,9 @@ Proof.
   assert (0 <= (t p1 - t p0) * ((1 # 2) * (g p1 + g p0))) by (apply Qmult_le_0_compat; lra). lra.
 Qed.
 
-(* the observation CDF as a rational *)
-Definition hq (y t : Q) : Q := if Qle_bool y t then 1 else 0.
 Lemma obs_cdf_fin y t : obs_cdf_at (XFin y) t = XFin (hq y t).
 Proof. unfold obs_cdf_at, hq. simpl. destruct (Qle_bool y t); reflexivity. Qed.
 
-Definition g_total (y : Q) (p : pt) : Q := wq p * ((fq p - hq y (tq p)) * (fq p - hq y (tq p))).
-Definition g_over (y : Q) (p : pt) : Q := hq y (tq p) * wq p * ((fq p - hq y (tq p)) * (fq p - hq y (tq p))).
-Definition g_under (y : Q) (p : pt) : Q := (1 - hq y (tq p)) * wq p * ((fq p - hq y (tq p)) * (fq p - hq y (tq p))).
 
 Theorem trapz_line_fin (pts : list pt) (y : Q) :
   let r := crps_trapz_line (map tq pts) (fins (map fq pts)) (observed_cdf_line (XFin y) (map tq pts)) (fins (map wq pts)) in
